@@ -215,6 +215,49 @@ def evalFn (fn k : String) (ps : List Nat) (raw xs : List Nat) : Option String :
     if i > j || j > raw.length || j > xs.length then some "skip" else some (b01 (singular (i, j)))
   | "singularc", [] =>
     if !(sq || k == "s" || k == "f") then none else some (b01 (rangeSingular xs))
+  -- the value argument is (a reference to) element I of the same container: the code copies it or only reads, so the
+  -- model is the plain function applied to `xs[I]`
+  | "containsat", [I] =>
+    if !(sq || k == "f" || k == "s") || I > 8 then none else
+    match xs[I]? with | none => some "skip" | some e => some (b01 (contains xs e))
+  | "findoptat", [I] =>
+    if !(sq || k == "f" || k == "s") || I > 8 then none else
+    match xs[I]? with | none => some "skip" | some e => some (optIdx xs (findOpt xs e))
+  | "indexofat", [I] =>
+    if !(k == "v" || k == "d" || k == "a") || I > 8 then none else
+    match xs[I]? with
+    | none => some "skip"
+    | some e => some (match indexOf xs e with | none => "none" | some i => toString i)
+  | "eqrangeat", [I] =>
+    if !(sq || k == "s") || I > 8 then none else
+    match xs[I]? with
+    | none => some "skip"
+    | some e => some (exc (fun r => s!"{r.1},{r.2}") (equalRange (fun a b => decide (a < b)) xs e))
+  | "bsearchat", [I] =>
+    if !(sq || k == "s") || I > 8 then none else
+    match xs[I]? with
+    | none => some "skip"
+    | some e => some (exc (optIdx xs) (binarySearch (fun a b => decide (a < b)) xs e))
+  | "apushat", [I] =>
+    if k != "a" || I > 8 then none else
+    if xs.length > 5 then some "skip" else
+    match xs[I]? with
+    | none => some "skip"
+    | some e => some (exc (fun r => ds r.1) (arrayPushBackVC false false 9 xs e))
+  | "aappendself", [] =>
+    if k != "a" then none else
+    if xs.length > 3 then some "skip" else some (exc (fun r => ds r.1) (arrayAppendVC false false 9 xs xs))
+  | "ajoinself", [] =>
+    if k != "a" then none else
+    if xs.length > 2 then some "skip" else some (exc (fun r => ds r.1) (arrayJoin3VC false false false 9 xs xs xs))
+  | "tpushat", [I] =>
+    if k != "t" || I > 2 then none else
+    if xs.length > 2 then some "skip" else
+    match xs[I]? with
+    | none => some "skip"
+    | some e => some (exc (fun r => ds r.1) (tuplePushBackVC false false 9 xs e))
+  | "tconcatself", [] =>
+    if k != "t" then none else some (ds (tupleConcatVC 9 [(false, xs), (false, xs)]).1)
   -- arities
   | "ajoin1", [] => if k != "a" then none else some (exc ds (arrayJoin xs []))
   | "ajoin2", [c1] =>
@@ -373,6 +416,18 @@ def allPieceTuples : Nat → List (List (List Char))
   | 0 => [[]]
   | n + 1 => (allPieceTuples n).flatMap fun t => pieceChoices.map fun p => t ++ [p]
 
+def splitAtLine (i : Nat) (s : List Char) : String :=
+  match s[i]? with
+  | none => "skip"
+  | some delim =>
+    let pieces := splitString s delim
+    s!"{pieces.length}:{"/".intercalate (pieces.map String.ofList)}"
+
+def joinAtLine (i : Nat) (pieces : List (List Char)) : String :=
+  match pieces[i]? with
+  | none => "skip"
+  | some delim => showStr (joinStrings pieces delim)
+
 def joinLine (d : List Char) (pieces : List (List Char)) : String :=
   let joined := joinStrings pieces d
   match d with
@@ -415,6 +470,28 @@ def evalM (fn : String) (ps : List Nat) (M : Nat) : Option String :=
     let m' : Map := m.map fun e => (e.1, (e.2 + D) % 3)
     let vals := refs.map fun i => match m'[i]? with | some e => toString e.2 | none => "oob"
     some (if vals.isEmpty then "-" else String.join vals)
+  | "findmappedat", [J] => if J > 2 then none else
+    match m[J]? with
+    | none => some "skip"
+    | some e => some (match findOptMapped m e.1 with | none => "none" | some v => toString v)
+  | "containsat", [J] => if J > 2 then none else
+    match m[J]? with | none => some "skip" | some e => some (b01 (containerContains (m.map (·.1)) e.1))
+  | "insertat", [J] => if J > 2 then none else
+    match m[J]? with
+    | none => some "skip"
+    | some e => let (r, m') := mapInsert m e; some s!"{b01 r}|{encodeMap m'}"
+  | "getorinsat", [J] => if J > 2 then none else
+    match m[J]? with
+    | none => some "skip"
+    | some e =>
+      let (r, m', calls) := getOrInsert m e.1 (fun k (calls : List Nat) => ((k + 1) % 3, calls ++ [k])) []
+      some s!"{exc (fun r => s!"{r.1},{b01 r.2}") r}|{encodeMap m'}|{ds calls}"
+  | "getorinsatv", [J] => if J > 2 then none else
+    match m[J]? with
+    | none => some "skip"
+    | some e =>
+      let (r, m', calls) := getOrInsert m e.2 (fun k (calls : List Nat) => ((k + 1) % 3, calls ++ [k])) []
+      some s!"{exc (fun r => s!"{r.1},{b01 r.2}") r}|{encodeMap m'}|{ds calls}"
   | "keyset", [] => some (ds (keySet m))
   | "mapvals", [] => some (ds (mapValues m))
   | "mapiter", [R] => if R ≥ 64 then none else
@@ -439,6 +516,14 @@ def setopLine (op : String) (a b : List Nat) : Option String :=
   | "d" => some (natList (setDifference a a))
   | "C" => match b0 with
     | [x] => some (b01 (containerContains a x))
+    | _ => none
+  | "c" => match b0 with
+    | [j] => (match a[j]? with | none => some "skip" | some x => some (b01 (containerContains a x)))
+    | _ => none
+  | "n" => match b0 with
+    | [j] => (match a[j]? with
+      | none => some "skip"
+      | some x => let (r, s') := setInsertFlag a x; some s!"{b01 r}|{if s'.isEmpty then "-" else natList s'}")
     | _ => none
   | "N" => match b0 with
     | [x] => let (r, s') := setInsertFlag a x; some s!"{b01 r}|{if s'.isEmpty then "-" else natList s'}"
@@ -472,6 +557,26 @@ def stateless (toks : List String) : String :=
       let len ← l.toNat?
       if len > 9 then none else
       pure ("D " ++ hex64 ((allStrings ['a', 'b', 'c'] len).foldl (fun h s => fnv h (splitLine s)) fnvInit))
+    | ["splitat", _, i, s] => do
+      let i ← i.toNat?
+      let s ← parseStr s
+      pure (splitAtLine i s)
+    | ["dsplitat", _, i, l] => do
+      let i ← i.toNat?
+      let len ← l.toNat?
+      if len > 9 then none else
+      pure ("D " ++ hex64 ((allStrings ['a', 'b', 'c'] len).foldl (fun h s => fnv h (splitAtLine i s)) fnvInit))
+    | "joinstrat" :: i :: n :: ps => do
+      let i ← i.toNat?
+      let n ← n.toNat?
+      if ps.length ≠ n ∨ n > 6 then none else
+      let ps ← ps.mapM parseStr
+      pure (joinAtLine i ps)
+    | ["djoinat", i, n] => do
+      let i ← i.toNat?
+      let n ← n.toNat?
+      if n > 4 then none else
+      pure ("D " ++ hex64 ((allPieceTuples n).foldl (fun h t => fnv h (joinAtLine i t)) fnvInit))
     | "joinstr" :: d :: n :: ps => do
       let d ← parseStr d
       let n ← n.toNat?
@@ -499,7 +604,7 @@ def stateless (toks : List String) : String :=
       let b ← parseNatList b
       (setopLine op a b).map fun s => if s.isEmpty then "-" else s
     | ["dset", op] => do
-      let single := op == "N" || op == "C"
+      let single := op == "N" || op == "C" || op == "n" || op == "c"
       let lines ← ((List.range 64).mapM fun n => setopLine op (maskList (n / 8)) (if single then [n % 4] else maskList (n % 8)))
       pure ("D " ++ hex64 (lines.foldl (fun h s => fnv h (if s.isEmpty then "-" else s)) fnvInit))
     | ["repeat", c] => do
